@@ -38,6 +38,10 @@ CHECKS = {
    "bounded-exhaustive enumeration: every program of the C02 generator with each failure category planted at every probe position x errexit on/off (+ job control, + syntax error on a later line, + errexit toggled mid-script), executed by the real shell and compared with the reference interpreter extended by the documented shell-error table",
    "Every C02 program of at most 3 (quick, 12.6k cases) / 4 (thorough, 370k cases) nodes is run (a) unchanged with errexit off and on, with `set -m` when it contains a pipeline, and with a syntax error on a later line; (b) with each of 13 failure categories (command not found; redirection error on regular built-in, function, compound command, special built-in, command-wrapped special built-in; read-only assignment prefixed to a special built-in, a regular built-in, nothing; ${u?}; unset variable under nounset; special built-in usage error directly and via `command`) planted at every probe position, errexit off and on; (c) with errexit toggled mid-script. Every script installs an EXIT trap and ends with a final probe. The reference interpreter tracks the dynamic condition-context depth (if/while/until conditions, non-final and-or elements, `!`, through function calls) and the manual's consequences-of-shell-errors table; the markers with their $?, the absence of anything after the abort point, the exit status (exact where documented, non-zero where the manual only says so) and exactly one EXIT-trap execution are compared.",
    "refsh + docs/src/termination.md table trusted; default schedule on the simulated OS; the private glue yash_cli::run_as_shell_process is reproduced from its public pieces in the harness."),
+ "C18": ("model_checking", "DESIGN.md §3 C18",
+   "exhaustive enumeration of input feeds (file, pipe in every chunking with <= 2 cuts x explored schedules of writer vs shell, -c, dot script, eval) x syntax-error positions on the real shell; oracle = line-consumption unit model + descriptor offsets",
+   "14 scripts built from units (command lines plus exactly the data lines they consume: read with 1-2 variables, grouped reads, read in a loop / subshell / pipeline stage, alias and option changes affecting later lines only, multi-line compound commands, here-documents incl. a here-document followed by a stdin reader on the same line, cat swallowing the rest, line continuations, exit) with a syntax error planted before every unit (67 cases). Each case is fed (i) as a regular file on descriptor 0 with a `pos` probe after every unit — the descriptor offset must be exactly the end of that line; (ii) through a pipe written by a separate simulated process in every chunking with <= 1 (quick) / <= 2 (thorough) cuts at positions around every newline and mid-line, under every schedule of writer and shell with <= 1 / <= 2 deviations (thorough: + syscall-tap preemption); (iii)-(v) as -c string, dot script and eval when the script does not read its own input. All feeds must give the unit model's markers, stdout bytes and exit-status class; lines before a syntax error have run, nothing after it.",
+   "Unit expectations hand-written from the line-by-line rules; simulator pipe semantics."),
 }
 
 NOT_YET = {
